@@ -118,6 +118,13 @@ func c14Toml(r *rand.Rand, depth int) map[string]any {
 			k = c14Key(r, i)
 		}
 		switch c := r.Intn(10); {
+		case c == 9 && r.Intn(3) == 0:
+			// empty table / empty array, at any level
+			if r.Intn(2) == 0 {
+				m[k] = map[string]any{}
+			} else {
+				m[k] = []any{}
+			}
 		case c < 5 || depth <= 0:
 			m[k] = c14Scalar(r, false)
 		case c < 7:
